@@ -35,7 +35,12 @@ SetGeom  == \E k \in 1..NSl : \E j \in 1..Len(NonLatent(pop)) : Do(Act("setGeom"
 AddShape == \E k \in 1..NSl : Do(Act("addShape", k, 0))
 SaveReopen == hist # <<>> /\ hist[Len(hist)].op # "reopen" /\ Do(Act("reopen", 0, 0))
 Notes == \E k \in 1..NSl : Do(Act("notes", k, 0))
-Next == AddPh \/ AddSlide \/ SetGeom \/ AddShape \/ SaveReopen \/ Notes
+\* the layout is edited between two slide additions (the recipe "delete / reorder a layout's placeholder through its element"): the j-th
+\* placeholder element of the layout is removed (dropPh) or moved behind the others (movePh); a slide added afterwards mirrors the layout
+\* AS IT IS THEN (the trace carries the layout's placeholders as read at each addition), the slides added before are untouched
+EditLayout == /\ MODE = "pairs" /\ NSl >= 1 /\ Len(pop) >= 2 /\ \A i \in DOMAIN hist : hist[i].op \notin {"dropPh", "movePh"}
+              /\ \E op \in {"dropPh", "movePh"} : \E j \in 1..Len(pop) : (op = "movePh" => j < Len(pop)) /\ Do(Act(op, 0, j))
+Next == AddPh \/ AddSlide \/ SetGeom \/ AddShape \/ SaveReopen \/ Notes \/ EditLayout
 Spec == Init /\ [][Next]_<<pop, hist>>
 \* design check: the mirror of a population keeps order and drops exactly the latent types
 MirrorOK == Len(ImplMirror(pop)) = Cardinality({i \in DOMAIN pop : pop[i].type \notin Latent})
